@@ -28,6 +28,11 @@ RULE = ('from_sparse: exhaustive small scope (<= 2 spikes, <= 3 local columns, c
         'waveform route with k = 1, 2, 3, 5, 6, 7 spikes (Helmert contrasts: exactly diagonal covariance, integer means; '
         'min(3, k-1) components claimed) and with exactly two spikes carrying arbitrary integer waveforms (component 0 / '
         'feature 0 against the normalised difference vector, relative tolerance 2^-18). '
+        'Stage 4: the waveform route on SPARSE waveform stores (per-template or per-spike channel rows of any width, -1 '
+        'padding at the end or anywhere, channels missing for some spikes, junk in the padding columns), 1-8 requested stored '
+        'spikes, judged through the linked model C06/LinkC03.v (C03 get_waveforms -> compute_features -> placement): exactly '
+        'diagonalisable masked waveforms (components judged per channel as far as they are determined) and arbitrary integer '
+        'waveforms (waveform stage, zero features of unstored channels, placement; two spikes: feature 0 within 2^-18). '
         'Non-trivial = at least one stored value lands in the output; distinct = distinct abstract input.')
 EXHAUSTIVE = {'quick': True, 'thorough': True}
 CLAUSES = {
@@ -44,6 +49,7 @@ CLAUSES = {
     28: 'waveform-route features are the projections onto the min(3, k-1) determined leading components (up to sign; two spikes: '
         'feature 0 = +- <w, d>/|d| within 2^-18)',
     29: 'C06_pca_assemble (rows at the requested positions, zero rows for spikes without stored waveform)',
+    31: 'C06_link_unstored_channel (waveform route: a channel that is not stored for a requested stored spike gives three zero features)',
 }
 TRUSTED = ['np.linalg.eigh / np.cov (LAPACK): validated numerically only, on inputs whose covariance is exactly diagonal',
            'np.einsum, np.intersect1d, np.isin, np.unique, fancy indexing/assignment (modelled)',
@@ -59,7 +65,10 @@ ASSUMES = ['requested channels distinct and >= 0; requested spike ids distinct a
            'large stores: the model is evaluated through its closed form (theorem C06_get_dense_closed, premise checked by wf_b: '
            'C06_wf_checker_sound) and _index_of through C06_index_of, because the lookup-table model is quadratic on Coq lists; '
            'the rows of a large request are observed at probed positions only',
-           'the lookup table of _index_of has at most ~2^22 cells in the generated cases (values near 2^31 are out of reach)']
+           'the lookup table of _index_of has at most ~2^22 cells in the generated cases (values near 2^31 are out of reach)',
+           'sparse waveform stores: at least one requested spike is stored and at least one channel is requested (otherwise '
+           '_compute_pcs divides by zero / get_waveforms falls back to absent raw data); the waveforms are judged against '
+           'C03\'s model of get_waveforms evaluated on the store files as generated (not on an export of raw data)']
 TIMEOUT = {'quick': 20, 'thorough': 40}
 
 ALPH = [0, 1, 2, 5]
@@ -419,6 +428,75 @@ def _pca_k(rng, k=None, general=False):
                     'ids': ids, 'chans': chans, 'wdtype': rng.choice(['float32', 'float64'])}}
 
 
+def _pca_sparse(rng, mode):
+    """waveform route of get_features on a SPARSE waveform store.  mode 'exact': the masked waveforms of the requested
+    stored spikes have an exactly diagonal covariance on every channel; 'general': arbitrary small integers."""
+    k = rng.choice([1, 2, 3, 4, 5, 5, 6, 7, 8]) if mode == 'exact' else rng.choice([1, 2, 2, 2, 3, 4, 6])
+    nsamp = rng.randint(3, 5)
+    nc = rng.randint(2, 5)
+    extra = rng.randint(0, 3)
+    nspk = max(2, k + extra + rng.randint(0, 3))
+    nt = rng.randint(2, 3)
+    stpl = [rng.randrange(nt) for _ in range(nspk)]
+    stored = rng.sample(range(nspk), k + extra)
+    if rng.random() < 0.6:
+        stored.sort()
+    req = sorted(rng.sample(stored, k))                      # requested stored spikes in the order of intersect1d
+    per_template = rng.random() < 0.6                        # rows as save_spikes_subset_waveforms writes them
+    def chanset():
+        r = rng.random()
+        return list(range(nc)) if r < 0.4 else rng.sample(range(nc), rng.randint(0 if r < 0.5 else 1, nc))
+    tsets = [chanset() for _ in range(nt)]
+    sets = {sp: (list(tsets[stpl[sp]]) if per_template else chanset()) for sp in stored}
+    ncs = max(1, max(len(v) for v in sets.values())) + rng.choice([0, 0, 1, 3])       # may exceed n_channels
+    pad_anywhere = rng.random() < 0.25
+    chrows = []
+    for sp in stored:
+        row = list(sets[sp])
+        if not per_template:
+            rng.shuffle(row)
+        row = row + [-1] * (ncs - len(row))
+        if pad_anywhere:
+            rng.shuffle(row)
+        chrows.append(row)
+    if per_template and not pad_anywhere:                    # one row per template, shared by its spikes
+        trow = {}
+        for q, sp in enumerate(stored):
+            chrows[q] = trow.setdefault(stpl[sp], chrows[q])
+    if mode == 'exact':
+        E = D6.sparse_exact_waveforms(rng, k, nsamp, nc, [[ch in sets[sp] for ch in range(nc)] for sp in req])
+    else:
+        E = [[[rng.randint(-9, 9) for _ in range(nc)] for _ in range(nsamp)] for _ in range(k)]
+    junk = rng.random() < 0.5                                # non-zero values in the padding columns
+    w = []
+    for q, sp in enumerate(stored):
+        m = []
+        for j in range(nsamp):
+            r = []
+            for ch in chrows[q]:
+                if ch < 0:
+                    r.append(rng.randint(1, 9) if junk else 0)
+                elif sp in req:
+                    r.append(E[req.index(sp)][j][ch])
+                else:
+                    r.append(rng.randint(-9, 9))
+            m.append(r)
+        w.append(m)
+    others = [s_ for s_ in range(nspk) if s_ not in stored]
+    ids = req + rng.sample(others, rng.randint(0, len(others)))
+    rng.shuffle(ids)
+    chans = rng.choice([list(range(nc)), rng.sample(range(nc), nc), rng.sample(range(nc), rng.randint(1, nc))])
+    inp = {'n_spikes': nspk, 'n_templates': nt, 'n_channels': nc, 'nsamp': nsamp, 'spike_templates': stpl, 'w': w,
+           'chrows': chrows, 'stored': stored, 'ids': ids, 'chans': chans, 'exact': mode == 'exact', 'judged': 0,
+           'wdtype': rng.choice(['float32', 'float64']), 'chdtype': rng.choice(['int32', 'int32', 'int64']),
+           'rows': 'per-template' if per_template else 'per-spike'}
+    if mode == 'exact':
+        det = D6.determined_components(D6.effective_waveforms(inp), min(3, k - 1))
+        assert det is not None, 'generator: covariance not diagonal'
+        inp['judged'] = sum(det)
+    return {'kind': 'pcas', 'inp': inp}
+
+
 def _corpus(rng):
     cases = []
     # upstream test_from_sparse example and boundary requests
@@ -464,6 +542,19 @@ def _corpus(rng):
     cases.append({'kind': 'pca2', 'inp': two})
     cases.append({'kind': 'pca', 'inp': dict(two, w=[[[1, 2], [5, 0], [0, 7]], [[1, 2], [9, 0], [0, 2]], [[3, 3], [3, 3], [3, 3]]])})
     cases.append({'kind': 'pca', 'inp': dict(two, ids=[3, 1])})                # a single stored spike: nothing claimed
+    # stage 4: sparse waveform stores.  (A) two requested stored spikes, channel rows [1, 0] / [2, -1] / [0, 1], junk in the
+    # padding column, channels requested in another order; (B) one stored spike requested; (C) exact, three spikes of which
+    # one does not store channel 1
+    sp = {'n_spikes': 4, 'n_templates': 2, 'n_channels': 3, 'nsamp': 3, 'spike_templates': [0, 1, 0, 1],
+          'w': [[[2, 1], [0, 5], [7, 0]], [[4, 9], [1, 9], [0, 9]], [[3, 3], [3, 3], [3, 3]]],
+          'chrows': [[1, 0], [2, -1], [0, 1]], 'stored': [0, 2, 3], 'ids': [2, 1, 0], 'chans': [0, 2, 1],
+          'exact': False, 'judged': 0, 'wdtype': 'float32', 'chdtype': 'int32', 'rows': 'per-spike'}
+    cases.append({'kind': 'pcas', 'inp': sp})
+    cases.append({'kind': 'pcas', 'inp': dict(sp, ids=[3, 1], chans=[2, 0])})
+    spx = dict(sp, w=[[[2, 0], [1, 0], [0, 3]], [[-2, 9], [1, 9], [0, 9]], [[0, 0], [-2, 0], [0, -3]]],
+               chrows=[[0, 1], [0, -1], [0, 1]], ids=[3, 0, 2], chans=[1, 0], exact=True)
+    spx['judged'] = sum(D6.determined_components(D6.effective_waveforms(spx), 2))
+    cases.append({'kind': 'pcas', 'inp': spx})
     return cases
 
 
@@ -483,6 +574,9 @@ def generate(tier, rng):
             cases.append(_pca_k(rng))
             cases.append(_pca_k(rng, general=True))
             cases.append(_idx_small(rng))
+        for _ in range(300):
+            cases.append(_pca_sparse(rng, 'exact'))
+            cases.append(_pca_sparse(rng, 'general'))
         return cases
     quick = tier == 'quick'
     cases += _fs_exhaustive(tier)
@@ -520,6 +614,10 @@ def generate(tier, rng):
     for _ in range(n_idx):
         cases.append(_idx_small(rng))
     cases += _idx_big()
+    # stage 4: sparse waveform stores through the linked model
+    for _ in range(40 if quick else 500):
+        cases.append(_pca_sparse(rng, 'exact'))
+        cases.append(_pca_sparse(rng, 'general'))
     # large subset stores (more than 2^15 stored spikes; thorough: more than 2^16)
     cases.append(_big(rng, 'features', 80000, 2, 'ends'))
     cases.append(_big(rng, 'tfeatures', 80000, 2, 'ends', down=True))
@@ -683,6 +781,30 @@ def run_case(case):
             return ('z3', _tok3(f))
         finally:
             shutil.rmtree(d, ignore_errors=True)
+    if k == 'pcas':
+        from phylib.io import model as M
+        d = tempfile.mkdtemp(prefix='c06_', dir=os.environ.get('VT_WORK') or None)
+        seen = []
+        orig = M._compute_pcs
+
+        def spy(x, npcs):
+            out = orig(x, npcs)
+            seen.append((np.array(x), np.array(out)))
+            return out
+        try:
+            m = D6.open_model(D6.pca_dataset(i), d)
+            if m.sparse_features is not None or m.spike_waveforms is None:
+                raise RuntimeError('pca dataset not loaded as intended')
+            M._compute_pcs = spy
+            try:
+                f = m.get_features(np.array(i['ids'], dtype=np.int64), np.array(i['chans'], dtype=np.int64))
+            finally:
+                M._compute_pcs = orig
+            m.close()
+            wav, pcs = seen[0] if seen else (np.zeros((0, 0, 0)), np.zeros((0, 0, 0)))
+            return ('link', _tok3(wav), _tok3(pcs), _tok3(f))
+        finally:
+            shutil.rmtree(d, ignore_errors=True)
     raise ValueError(k)
 
 
@@ -781,6 +903,10 @@ def encode(case, obs):
     elif k == 'idx':
         cin = '(InIndexOf %s %s)' % (_segs(i['lookup']), q.zl(i['arr']))
         cobs = 'ObsCrash' if crash else '(ObsZs %s)' % _optzl(obs[1])
+    elif k == 'pcas':
+        cin = '(InPcaS %s %s %s %s %s %s %s %s)' % (q.b(i['exact']), q.nat(i['judged']), q.nat(i['nsamp']), _z3(i['w']),
+                                                  q.zll(i['chrows']), q.zl(i['stored']), q.zl(i['ids']), q.zl(i['chans']))
+        cobs = 'ObsCrash' if crash else '(ObsLink %s %s %s)' % (_t3(obs[1]), _t3(obs[2]), _t3(obs[3]))
     else:
         raise ValueError(k)
     return cin, cobs
@@ -804,6 +930,8 @@ def nontrivial(case, obs):
                    for o in obs[1])
     if k == 'idx':
         return bool(obs[1])
+    if k == 'pcas':
+        return any(t not in (('n', 0, 0), ['n', 0, 0]) for r in obs[3] for c in r for t in c)
     return True
 
 
@@ -878,6 +1006,22 @@ def dist(case, obs):
         out.append('idx.max_value=%s' % ('<2^15' if max(lk + [0]) < 32768 else '<2^16' if max(lk) < 65536 else '<2^17' if max(lk) < 2 ** 17
                                            else '>=2^17'))
         out.append('idx.outcome=%s' % ('IndexError' if obs[1] is None else 'ok'))
+    elif k == 'pcas':
+        exist = sorted(set(i['ids']) & set(i['stored']))
+        rows = [i['chrows'][i['stored'].index(sp)] for sp in exist]
+        out.append('pcas.mode=%s' % ('exact' if i['exact'] else 'general'))
+        out.append('pcas.stored_requested=%s' % _bucket(len(exist)))
+        out.append('pcas.rows=%s' % i.get('rows'))
+        out.append('pcas.requested_channel_missing_for_some_spike=%s' % any(ch not in r for r in rows for ch in i['chans']))
+        out.append('pcas.requested_channel_stored_by_none=%s' % any(all(ch not in r for r in rows) for ch in i['chans']))
+        out.append('pcas.padding=%s' % ('none' if not any(-1 in r for r in rows) else
+                                        'end' if all(-1 not in r[:len([c for c in r if c >= 0])] for r in rows) else 'anywhere'))
+        out.append('pcas.row_wider_than_n_channels=%s' % (len(i['chrows'][0]) > i['n_channels']))
+        out.append('pcas.unstored_requested=%s' % bool(set(i['ids']) - set(i['stored'])))
+        out.append('pcas.stored_not_requested=%s' % bool(set(i['stored']) - set(i['ids'])))
+        if i['exact']:
+            full = min(3, len(exist) - 1) * len(i['chans'])
+            out.append('pcas.components_judged=%s' % ('none' if i['judged'] == 0 else 'all' if i['judged'] == full else 'some'))
     return out
 
 
@@ -994,6 +1138,34 @@ def shrink(case):
             j = copy.deepcopy(i)
             j['ids'] = sorted(i['ids'])
             yield {'kind': k, 'inp': j}
+    elif k == 'pcas':
+        others = [s for s in i['ids'] if s not in i['stored']]
+        for s in others:
+            j = copy.deepcopy(i)
+            j['ids'].remove(s)
+            yield {'kind': k, 'inp': j}
+        for q_, sp in enumerate(i['stored']):                 # drop a stored spike that is not requested
+            if sp not in i['ids'] and len(i['stored']) > 1:
+                j = copy.deepcopy(i)
+                del j['stored'][q_]
+                del j['chrows'][q_]
+                del j['w'][q_]
+                yield {'kind': k, 'inp': j}
+        if not i['exact']:
+            for c in range(len(i['chans'])):
+                if len(i['chans']) > 1:
+                    j = copy.deepcopy(i)
+                    del j['chans'][c]
+                    yield {'kind': k, 'inp': j}
+        if i['ids'] != sorted(i['ids']):
+            j = copy.deepcopy(i)
+            j['ids'] = sorted(i['ids'])
+            yield {'kind': k, 'inp': j}
+        for key, v in (('wdtype', 'float32'), ('chdtype', 'int32')):
+            if i[key] != v:
+                j = copy.deepcopy(i)
+                j[key] = v
+                yield {'kind': k, 'inp': j}
 
 
 def repro(case):
